@@ -22,8 +22,14 @@ func faninLine(f, in0, in1, cons, ctl string, reps int) string {
 }
 
 func dispatchLine(sub, sign, peers, cons, ctl string, self int, pre bool, reps int) string {
-	l := fmt.Sprintf("sc p=query.sys keep=dosnode.dispatchSign,dosnode.queryLoop feed=dosnode.choseSubmitter.outs#1:%s;dosnode.genSign.out:%s;p2p.SubscribeMsg.dosnode.queryLoop:%s cons=dosnode.dispatchSign.out:%s ctl=%s pick=if_r_!=_0:%d obs=dosnode.dispatchSign.out reps=%d",
-		sub, sign, peers, cons, ctl, self, reps)
+	return dispatchLineShare(sub, sign, peers, cons, ctl, self, 1, pre, reps)
+}
+
+// share = 1: genSign delivers a share; share = 0: it delivers nil (the node could not compute the
+// content; /repo 7f58072: dispatchSign then finishes instead of registering for the peers' shares)
+func dispatchLineShare(sub, sign, peers, cons, ctl string, self, share int, pre bool, reps int) string {
+	l := fmt.Sprintf("sc p=query.sys keep=dosnode.dispatchSign,dosnode.queryLoop feed=dosnode.choseSubmitter.outs#1:%s;dosnode.genSign.out:%s;p2p.SubscribeMsg.dosnode.queryLoop:%s cons=dosnode.dispatchSign.out:%s ctl=%s pick=if_r_!=_0:%d;if_!ok_||_sign_==_nil:%d obs=dosnode.dispatchSign.out reps=%d",
+		sub, sign, peers, cons, ctl, self, share, reps)
 	if pre {
 		l += " pre=1"
 	}
@@ -74,6 +80,9 @@ func gen(tier string, rng *h.Rng, emit func(string)) {
 	emit(dispatchLine("sc", "sc", "s", "ctx", "f2,f0,f1,go,x,r", 1, false, 30))
 	emit(dispatchLine("c", "sc", "-", "ctx", "f0,f1,go,r", 1, false, 4))
 	emit(dispatchLine("sc", "c", "-", "ctx", "f0,f1,go,x,r", 1, false, 30))
+	// no own share (nil from genSign): the reply channel is closed, never registered (7f58072)
+	emit(dispatchLineShare("sc", "sc", "s", "ctx", "f2,f0,f1,go,r", 1, 0, false, 4))
+	emit(dispatchLineShare("sc", "s", "ss", "all", "f0,f1,go,f2,x,r", 1, 0, false, 8))
 	// single stages of the query pipeline, cancellation at every quiet point
 	stageLines := []string{
 		"sc p=query.sys keep=dosnode.choseSubmitter feed=- cons=dosnode.choseSubmitter.outs#0:all;dosnode.choseSubmitter.outs#1:all;dosnode.choseSubmitter.errc:all ctl=%s obs=dosnode.choseSubmitter.outs#0;dosnode.choseSubmitter.outs#1;dosnode.choseSubmitter.errc reps=3",
@@ -141,7 +150,7 @@ func gen(tier string, rng *h.Rng, emit func(string)) {
 		if strings.Contains(ctl, "x") {
 			reps = 40
 		}
-		emit(dispatchLine([]string{"sc", "c", "s"}[rng.Intn(3)], []string{"sc", "c", "s"}[rng.Intn(3)], []string{"-", "s", "ss"}[rng.Intn(3)],
-			[]string{"ctx", "all", "n1"}[rng.Intn(3)], ctl, rng.Intn(2), false, reps))
+		emit(dispatchLineShare([]string{"sc", "c", "s"}[rng.Intn(3)], []string{"sc", "c", "s"}[rng.Intn(3)], []string{"-", "s", "ss"}[rng.Intn(3)],
+			[]string{"ctx", "all", "n1"}[rng.Intn(3)], ctl, rng.Intn(2), []int{1, 1, 0}[rng.Intn(3)], false, reps))
 	}
 }
